@@ -236,6 +236,11 @@ class Run:
         elif kind == 'rpc':
             inst = sim.instances.get(item['inst'])
             fired = inst is not None and inst.alive
+            # observers must know the operation before its synchronous effects (requests pushed by the handler)
+            for obs in self.observers:
+                f = getattr(obs, 'before_operation', None)
+                if f:
+                    f(item, fired)
             rec = sim.client_call(item['inst'], item['method'], item.get('args', []))
             rec['plan_item'] = item
         elif kind == 'child_exit':
